@@ -89,12 +89,14 @@ TFreeCode == IsApi("freec") /\ FreeCode(Ev.p) /\ Accounted /\ UNCHANGED image
 TRun ==
   /\ IsApi("run")
   /\ Run(Ev.p)
+  /\ Chk("F_C17", Ev.ok = 1)      \* running the same code again gives the same (right) result
   /\ Chk("F_C06", Ev.ok = 1 /\ Ev.bk = (IF prog[Ev.p].exec = "backup" THEN 1 ELSE 0))
   /\ Accounted /\ UNCHANGED image
 
 TRunCode ==
   /\ IsApi("runc")
   /\ RunCode(Ev.p)
+  /\ Chk("F_C17", Ev.ok = 1)
   /\ Chk("F_C06", Ev.ok = 1 /\ Ev.bk = (IF tcode[Ev.p].exec = "backup" THEN 1 ELSE 0))
   /\ Accounted /\ UNCHANGED image
 
@@ -121,16 +123,35 @@ TCompile ==
   /\ UNCHANGED <<mode, tcode, bad>>
   /\ Accounted
 
+\* churn: n times (reset; compile for avx; run) reported as one event: the
+\* state afterwards is that of the last compile, every run must have been right
+TChurn ==
+  /\ IsApi("churn")
+  /\ LET p == Ev.p
+         pr == [DropCode(prog[p]) EXCEPT !.asm = FALSE, !.err = FALSE]
+         pred == CompileOutcome(pr, mode, "avx")
+         rec == Seen([pred.rec EXCEPT !.code = B(Ev.code), !.chunk = B(Ev.chunk)])
+     IN
+       /\ prog[p].live
+       /\ prog' = [prog EXCEPT ![p] = rec]
+       /\ heap' = (heap \ ProgRes(p, prog[p])) \cup ProgRes(p, rec)
+       /\ last' = [op |-> "compile", cls |-> Ev.cls, p |-> p]
+       /\ Chk("F_C06", Ev.ok = 1 /\ (rec.exec # "backup" => Ev.bk = 0))
+  /\ hist' = hist
+  /\ UNCHANGED <<mode, tcode, bad, image>>
+  /\ Accounted
+
 TEnd == /\ IsEvent("End")
         /\ Chk("F_C16", Ev.leak = 0)
         /\ UNCHANGED <<mode, prog, tcode, heap, bad, last, hist, image>>
 
-\* allocator hook events are validated by Trace_CodeMem; here they stutter
-TSkip == /\ l <= Len(TraceLog) /\ Ev.e \in {"NewRegion", "Alloc", "AllocFail", "Free", "Sys", "Dispatch", "Lock", "Unlock", "CompilerExit"}
+\* events of other vocabularies (allocator hooks are validated by Trace_CodeMem,
+\* compiler exits ...) stutter; Crash is in this vocabulary and has no action
+TSkip == /\ l <= Len(TraceLog) /\ Ev.e \notin {"Reset", "Api", "End", "Crash"}
          /\ l' = l + 1
          /\ UNCHANGED <<mode, prog, tcode, heap, bad, last, hist, image>>
 
-TNext == TSkip \/ TReset \/ TNew \/ TSpoil \/ TBadAppend \/ TBackup \/ TReset1 \/ TTake \/ TFreeProg
+TNext == TSkip \/ TReset \/ TNew \/ TSpoil \/ TChurn \/ TBadAppend \/ TBackup \/ TReset1 \/ TTake \/ TFreeProg
          \/ TFreeCode \/ TRun \/ TRunCode \/ TCompile \/ TEnd
 
 TSpec == TInit /\ [][TNext]_tvars
